@@ -132,6 +132,25 @@ CHECKS.update({
     ),
 })
 
+CHECKS.update({
+    "C05": dict(
+        level="exploration", engine="bex",
+        text="(a) plain build: all 17 binary and 2 unary operators, 9 access/call/control forms and every static function and every method of every built-in "
+             "type (enumerated from the library's own documentation tables, documented arity and arity +-1) are applied to every argument tuple from a pool with "
+             "one representative per sort plus boundary values (24 values; 6 for arity 3..4), each in 7 contexts (top level, try/catch, called closure, consumed "
+             "map, let under a pending argument, try around closure/map), in worker subprocesses whose death or hang is a verdict (journaled re-run pinpoints the "
+             "case); all contexts must agree on ok-vs-error and every fault must yield the catch value inside try; 26 runaway-recursion shapes. (b) coop build: "
+             "3 fault kinds (throw, panicking operator, panicking host function) x 11 positions (upstream/downstream stage, parallel mapper/filter, terminal "
+             "closure and loop body, merge comparator/operands, multiUse consumer/source) x fault in the sequential phase / first parallel item / last item, bare "
+             "and inside try, ALL schedules under the controlled scheduler: no panic may reach the top of a library goroutine, outcome error resp. catch value.",
+        note="Trusted: process exit status and the journal for crash pinpointing; that an input IS a fault is taken from the library's own bare evaluation, except "
+             "for the arithmetic/indexing faults the property names (must be errors). A 64 MB goroutine stack limit is set in the workers so that runaway "
+             "recursion dies quickly. Requests to allocate 2^62 elements are excluded (resource exhaustion). " + VS,
+        technique="bounded-exhaustive fault table in crash-isolated worker processes + stateless model checking of fault-injection scenarios under a controlled scheduler",
+        design_ref="DESIGN.md §5 C05",
+    ),
+})
+
 NOT_YET = "check not built yet in this session (planned, see DESIGN.md §9); not claimed until its machinery exists"
 
 def main():
